@@ -114,7 +114,19 @@ type c32Existing struct {
 	id  []byte
 }
 
+// c32Sess: per-session bookkeeping of the runner (several sessions of a case can be alive)
+type c32Sess struct {
+	s      *network.VerifC32Session
+	in     bool
+	aead   byte
+	curKey int
+	hid    []byte // id at hand-over (copy)
+	snap   []byte // copy of the session secret taken right after the secure stage
+}
+
 type c32Runner struct {
+	all      []*c32Sess
+	cur      int
 	started  bool
 	existing []c32Existing // peers of this case that were handed over and stay connected
 	prev     []byte        // secret of the previous session of this case
@@ -139,10 +151,19 @@ func (r *c32Runner) content(tok string) ([]byte, bool) {
 		}
 		return x, true
 	case tok == "p":
-		if r.prev == nil {
+		if r.s == nil || r.cur == 0 || r.all[r.cur-1].s.LocalExtra() == nil {
 			return []byte("c32-no-previous-session"), true
 		}
-		return r.prev, true
+		return r.all[r.cur-1].s.LocalExtra(), true
+	case len(tok) > 1 && tok[0] == 'x':
+		j, err := strconv.ParseUint(tok[1:], 10, 16)
+		if err != nil || j >= 65535 {
+			return nil, false
+		}
+		if r.s == nil || int(j) >= len(r.all) || r.all[j].s.LocalExtra() == nil {
+			return []byte(fmt.Sprintf("c32-no-secret-of-session-%d", j)), true
+		}
+		return r.all[j].s.LocalExtra(), true
 	case tok == "o":
 		if r.other == nil {
 			r.other = network.VerifC32OtherSecret()
@@ -329,16 +350,20 @@ func (r *c32Runner) deliver(o *Oracle, sub uint16, payload []byte, what string, 
 
 	// ---- property oracle on the real code ----
 	isSig := what == "sigreq" || what == "sigresp"
-	proof := isSig && pubKey >= 0 && si.key == pubKey && si.content == "t" && !errFlag
+	own := si.content == "t" || si.content == fmt.Sprintf("x%d", r.cur)
+	proof := isSig && pubKey >= 0 && si.key == pubKey && own && !errFlag
+	r.checkSecrets(o)
 	if handed {
 		r.curKey = pubKey
+		r.all[r.cur].curKey = pubKey
+		r.all[r.cur].hid = append([]byte{}, handedID...)
 		o.Count("handed-" + what)
 		o.Check(r.s.HandOverCount() == before+1, "c32-handed-twice", "nextOnPeer called %d times", r.s.HandOverCount()-before)
 		o.Check(isSig, "c32-identity-without-signature-message", "peer handed over by a %s message", what)
 		o.Check(!isSig || pubKey >= 0, "c32-identity-with-malformed-key", "peer handed over with malformed key")
 		o.Check(!isSig || si.key >= 0, "c32-identity-with-malformed-signature", "peer handed over with junk signature")
 		o.Check(!isSig || si.key < 0 || si.key == pubKey, "c32-identity-signed-by-other-key", "signature by key %d accepted for key %d", si.key, pubKey)
-		o.Check(!isSig || si.key < 0 || si.content == "t", "c32-identity-over-other-content", "signature over %q accepted", si.content)
+		o.Check(!isSig || si.key < 0 || own, "c32-identity-over-other-content", "signature over %q accepted in session %d", si.content, r.cur)
 		if pubKey >= 0 {
 			want := network.NewPeerIDFromPublicKey(c32Key(pubKey).PublicKey()).Bytes()
 			o.Check(bytes.Equal(handedID, want), "c32-identity-not-of-key", "peer handed over with id %x, key %d has id %x", handedID, pubKey, want)
@@ -374,10 +399,51 @@ func (r *c32Runner) deliver(o *Oracle, sub uint16, payload []byte, what string, 
 	return out
 }
 
+func (r *c32Runner) save() {
+	if r.s == nil || r.cur >= len(r.all) {
+		return
+	}
+	e := r.all[r.cur]
+	e.in, e.aead, e.curKey = r.in, r.aead, r.curKey
+}
+
+func (r *c32Runner) load(i int) {
+	e := r.all[i]
+	r.cur = i
+	r.s, r.in, r.aead, r.curKey = e.s, e.in, e.aead, e.curKey
+	r.existing = nil
+	for j, x := range r.all {
+		if j == i {
+			continue
+		}
+		if closed, handed, _, _, _, _, _ := x.s.State(); handed && !closed && x.curKey >= 0 {
+			r.existing = append(r.existing, c32Existing{x.s, x.curKey, x.hid})
+		}
+	}
+}
+
+// checkSecrets: the secret a session checks signatures against is the one derived for
+// THAT session in its secure stage: it never changes afterwards.
+func (r *c32Runner) checkSecrets(o *Oracle) {
+	for i, e := range r.all {
+		x := e.s.LocalExtra()
+		if x == nil {
+			continue
+		}
+		if e.snap == nil {
+			e.snap = append([]byte{}, x...)
+			continue
+		}
+		o.Check(bytes.Equal(e.snap, x), "c32-session-secret-changed",
+			"session %d: secret was %x right after its secure stage, is %x now", i, e.snap, x)
+	}
+}
+
 // checkIdentities re-reads the id of every peer that was handed over earlier in
 // this case and compares it with the address of the key it proved then
 // (computed without the peer-id cache).
 func (r *c32Runner) checkIdentities(o *Oracle) {
+	r.checkSecrets(o)
 	check := func(s *network.VerifC32Session, key int) {
 		want := common.NewAccountAddressFromPublicKey(c32Key(key).PublicKey()).ID()
 		_, _, hid, id, _, _, _ := s.State()
@@ -437,6 +503,17 @@ func (r *c32Runner) Step(t []string, o *Oracle) string {
 		}
 		o.Count("vs-err-invalid")
 		return "err-invalid " + c32IDStr(id.Bytes())
+	case "use":
+		if len(t) != 2 {
+			return "bad-op"
+		}
+		k, err := strconv.ParseUint(t[1], 10, 16)
+		if err != nil || int(k) >= len(r.all) {
+			return "bad-op"
+		}
+		r.save()
+		r.load(int(k))
+		return "ok"
 	case "idfill":
 		if len(t) != 3 {
 			return "bad-op"
@@ -459,12 +536,9 @@ func (r *c32Runner) Step(t []string, o *Oracle) string {
 		}
 		r.checkIdentities(o)
 		var ss []string
-		for _, e := range r.existing {
-			_, _, _, id, _, _, _ := e.s.State()
-			ss = append(ss, c32IDStr(id))
-		}
-		if r.s != nil {
-			closed, handed, _, id, _, _, _ := r.s.State()
+		r.save()
+		for _, e := range r.all {
+			closed, handed, _, id, _, _, _ := e.s.State()
 			if handed && !closed {
 				ss = append(ss, c32IDStr(id))
 			}
@@ -487,17 +561,11 @@ func (r *c32Runner) Step(t []string, o *Oracle) string {
 			}
 			c32LiveAll, r.started = nil, true
 		}
-		if r.s != nil {
-			r.prev = r.s.LocalExtra()
-			closed, handed, hid, _, _, _, _ := r.s.State()
-			if handed && !closed && r.curKey >= 0 {
-				// stays connected: an "existing peer" for the sessions that follow
-				r.existing = append(r.existing, c32Existing{r.s, r.curKey, append([]byte{}, hid...)})
-			}
-		}
-		r.w, r.in, r.other, r.secure, r.aead = w, t[1] == "1", nil, false, 0
-		r.curKey = -1
-		r.s = network.VerifC32NewSession(w, r.in)
+		r.save()
+		ns := &c32Sess{s: network.VerifC32NewSession(w, t[1] == "1"), in: t[1] == "1", curKey: -1}
+		r.all = append(r.all, ns)
+		r.w, r.other, r.secure = w, nil, false
+		r.load(len(r.all) - 1)
 		c32LiveAll = append(c32LiveAll, r.s)
 		return r.render(o)
 	case "secreq":
@@ -670,8 +738,64 @@ func c32GenIDCache(g *Gen) {
 	g.Emit("reset")
 }
 
+// c32GenInterleaved: two or three sessions alive at once with interleaved stages: session 0
+// finishes its secure stage, then the others run theirs (and possibly finish), then session 0
+// gets its signature message - the honest one, or one replaying a signature made for
+// another live session's secret.
+func c32GenInterleaved(g *Gen) {
+	n := 2 + g.Intn(2)
+	ins := make([]int, n)
+	for i := 0; i < n; i++ {
+		ins[i] = g.Intn(2)
+	}
+	sec := func(i int) {
+		if ins[i] == 1 {
+			g.Emit("secreq %s %s ok", []string{"1", "3"}[g.Intn(2)], []string{"1", "2", "3"}[g.Intn(3)])
+		} else {
+			g.Emit("secresp %d %d ok 0", g.Pick(1, 3), g.Pick(1, 2, 3))
+		}
+	}
+	sig := func(i, key int, content string) {
+		form := string("rsv"[g.Intn(3)])
+		if ins[i] == 1 {
+			g.Emit("sigreq k%dc g%d.%s.%s", key, key, content, form)
+		} else {
+			g.Emit("sigresp k%du g%d.%s.%s 0", key, key, content, form)
+		}
+	}
+	g.Emit("sess %d", ins[0])
+	sec(0)
+	for i := 1; i < n; i++ {
+		g.Emit("sess %d", ins[i])
+		sec(i)
+		if g.Intn(2) == 0 {
+			sig(i, 10+i, "t") // the honest peer of session i authenticates
+		}
+	}
+	g.Emit("use 0")
+	switch g.Intn(4) {
+	case 0:
+		sig(0, 10, "t")
+	case 1:
+		sig(0, 10, "x0")
+	default:
+		j := 1 + g.Intn(n-1)
+		sig(0, 10+j, fmt.Sprintf("x%d", j)) // replay of what session j's honest peer signs
+	}
+	for i := 1; i < n; i++ {
+		g.Emit("use %d", i)
+		sig(i, 10+i, []string{"t", "x0", fmt.Sprintf("x%d", i)}[g.Intn(3)])
+	}
+	g.Emit("ids")
+	g.Emit("reset")
+}
+
 func c32Gen(g *Gen) {
 	for c := 0; c < g.N; c++ {
+		if g.Intn(6) == 0 {
+			c32GenInterleaved(g)
+			continue
+		}
 		if c == 0 || (g.Tier == "thorough" && g.Intn(400) == 0) {
 			c32GenIDCache(g)
 			continue
